@@ -327,7 +327,7 @@ def math_uses_minmax_result(case: dict, failure: dict) -> bool:
 
 def math_noninteger_instance(case: dict, failure: dict) -> bool:
     """F-math-terms: the failing instance gives a non-integer value (constant, string, function term) to an input predicate
-    and the math step rewrote a comparison (moving terms across a comparison is only defined for integers)"""
+    and the math step rewrote a comparison or an aggregate guard (moving terms across a comparison is only defined for integers)"""
     inst = _instance(failure)
     if not inst:
         return False
@@ -341,7 +341,7 @@ def math_noninteger_instance(case: dict, failure: dict) -> bool:
                 is_int = arg.ast_type == ASTType.SymbolicTerm and arg.symbol.type.name == "Number"
                 is_neg = arg.ast_type == ASTType.UnaryOperation and arg.argument.ast_type == ASTType.SymbolicTerm and arg.argument.symbol.type.name == "Number"
                 if not (is_int or is_neg):
-                    before = {str(b) for b in _body_lits(_before(case, failure)) if b.ast_type == ASTType.Literal and b.atom.ast_type == ASTType.Comparison}
+                    before = {str(b) for b in _body_lits(_before(case, failure)) if b.ast_type == ASTType.Literal and b.atom.ast_type in (ASTType.Comparison, ASTType.BodyAggregate)}
                     after = {str(b) for b in _body_lits(_after(case, failure))}
                     return bool(before - after)
     return False
@@ -355,6 +355,46 @@ def variant_uses_hardwired_variable(case: dict, failure: dict) -> bool:
     if not str(failure.get("kind", "")).startswith("rename:"):
         return False
     for stm in _prg(failure.get("variant_src") or ""):
+        for name in astutil.variables_in(stm):
+            if HARDWIRED_VARS.match(name):
+                return True
+    return False
+
+
+def symmetry_groups_of_different_size(case: dict, failure: dict) -> bool:
+    """F-sym-bundle: some body (or aggregate condition) of the symmetry step's input joins two different predicates
+    that each occur at least twice, a different number of times, and share variables"""
+    from collections import Counter  # pylint: disable=import-outside-toplevel
+
+    def check(lits: list) -> bool:
+        atoms = [l for l in lits if l.ast_type == ASTType.Literal and l.sign == Sign.NoSign and l.atom.ast_type == ASTType.SymbolicAtom and l.atom.symbol.ast_type == ASTType.Function]
+        cnt = Counter((l.atom.symbol.name, len(l.atom.symbol.arguments)) for l in atoms)
+        multi = [p for p, n in cnt.items() if n >= 2]
+        for i, p in enumerate(multi):
+            for q in multi[i + 1 :]:
+                if cnt[p] == cnt[q]:
+                    continue
+                vp = {v for l in atoms if (l.atom.symbol.name, len(l.atom.symbol.arguments)) == p for v in astutil.variables_in(l)}
+                vq = {v for l in atoms if (l.atom.symbol.name, len(l.atom.symbol.arguments)) == q for v in astutil.variables_in(l)}
+                if (vp & vq) - {"_"}:
+                    return True
+        return False
+
+    for stm in _prg(_before(case, failure)):
+        if stm.ast_type not in (ASTType.Rule, ASTType.Minimize):
+            continue
+        if check(list(stm.body)):
+            return True
+        for lit in stm.body:
+            if lit.ast_type == ASTType.Literal and lit.atom.ast_type == ASTType.BodyAggregate:
+                if any(check(list(e.condition)) for e in lit.atom.elements):
+                    return True
+    return False
+
+
+def source_uses_hardwired_variable(case: dict, failure: dict) -> bool:
+    """F-hardwired (C04 face): the source itself uses a variable name that ngo inserts verbatim into rewritten rules"""
+    for stm in _prg(case.get("src", "")):
         for name in astutil.variables_in(stm):
             if HARDWIRED_VARS.match(name):
                 return True
@@ -425,6 +465,8 @@ TRIGGERS: dict[str, Callable[[dict, dict], bool]] = {
     "domain_rule_antimonotone": domain_rule_antimonotone,
     "math_sumplus_negative_weight": math_sumplus_negative_weight,
     "variant_uses_hardwired_variable": variant_uses_hardwired_variable,
+    "source_uses_hardwired_variable": source_uses_hardwired_variable,
+    "symmetry_groups_of_different_size": symmetry_groups_of_different_size,
     "math_uses_minmax_result": math_uses_minmax_result,
     "math_noninteger_instance": math_noninteger_instance,
     "input_also_defined_domain": input_also_defined_domain,
